@@ -228,8 +228,10 @@ def shard_guard(spec, R):
                     except IndexError as e:
                         R.violation(f"C14:index-error:{name}", f"{name}({dtype}, {cls}) interpreted: IndexError {str(e)[:100]}", case)
                         continue
-                    except (ValueError, ZeroDivisionError, TypeError) as e:
-                        R.count(f"interpreter_only_exception_{type(e).__name__}")  # e.g. math domain error of log(0): C13's business
+                    except (ValueError, ZeroDivisionError, TypeError, OverflowError) as e:
+                        # e.g. math domain error of log(0), or NumPy refusing to store a Python int beyond the output's
+                        # integer range (curve leaving int16: outside every claim; nopython code wraps): C13's business
+                        R.count(f"interpreter_only_exception_{type(e).__name__}")
                         continue
                     finally:
                         log, Tracked.LOG = Tracked.LOG, None
